@@ -127,6 +127,7 @@ class Exec:
                 if k not in self.funcs:
                     self.decls[k] = d
         self.hooks = {}
+        self.loop_hooks = {}
         self.solver_mode = solver
         self.timeout_ms = timeout_ms
         self.max_loop = max_loop
@@ -1257,6 +1258,10 @@ class Exec:
                         newv[ins[1]] = self.val(ins[3][prev], regs, ins[2])
                         i += 1
                     regs.update(newv)
+                if self.loop_hooks and (fname, cur) in self.loop_hooks:
+                    # loop-invariant reasoning: the hook sees the values arriving at the header (visit n) and may replace
+                    # them by fresh symbols (havoc) or end the path
+                    self.loop_hooks[(fname, cur)](self, n, [(ins[1], ins[2]) for ins in insts[:i]], regs)
                 self.stats["instrs"] += len(insts)
                 nxt = None
                 for ins in insts[i:]:
